@@ -40,9 +40,16 @@ class _Walker:
         self.targets = targets
         self.sites = []
         self.notifies = []
+        self.calls = []       # every self.<method>(…) call: (callee, lexically locked)
+        self.accesses = []    # every mention of self.out_window_size: (kind, lexically locked, line)
 
     def exprs(self, node, locked):
         for n in ast.walk(node):
+            if isinstance(n, ast.Attribute) and n.attr == "out_window_size" and _is_self_attr(n, "out_window_size"):
+                self.accesses.append(("write" if isinstance(n.ctx, ast.Store) else "read", locked, n.lineno))
+            if isinstance(n, ast.Call) and isinstance(n.func, ast.Attribute) and isinstance(n.func.value, ast.Name) \
+                    and n.func.value.id == "self":
+                self.calls.append((n.func.attr, locked))
             if isinstance(n, ast.Call) and isinstance(n.func, ast.Attribute):
                 if n.func.attr in self.targets and _is_self_attr(n.func, n.func.attr):
                     self.sites.append({"caller": self.fname, "target": n.func.attr, "lex": locked, "line": n.lineno})
@@ -77,6 +84,9 @@ class _Walker:
                     if _is_self_attr(t, a):
                         self.sites.append({"caller": self.fname, "target": "write:" + a, "lex": locked,
                                            "line": st.lineno})
+                self.exprs(t, locked)
+                if isinstance(st, ast.AugAssign) and _is_self_attr(t, "out_window_size"):
+                    self.accesses.append(("read", locked, st.lineno))
             self.exprs(st.value, locked)
             return
         for field in ("body", "orelse", "finalbody"):
@@ -129,6 +139,29 @@ def channel_tables(channel_cls):
     return sites, notifies
 
 
+def window_accesses(channel_cls):
+    """[(method, kind, effectively locked)] for every mention of self.out_window_size in class Channel; a helper
+    method counts as locked iff every ``self.<helper>(…)`` call inside the class is (transitively) locked"""
+    src = textwrap.dedent(inspect.getsource(channel_cls))
+    cls = ast.parse(src).body[0]
+    walkers = {}
+    for fn in cls.body:
+        if isinstance(fn, ast.FunctionDef):
+            w = _Walker(fn.name)
+            w.block(fn.body, False)
+            walkers[fn.name] = w
+    held = {name: False for name in walkers}
+    for _ in range(len(walkers) + 2):
+        for name in walkers:
+            callers = [(cname, lex) for cname, w in walkers.items() for callee, lex in w.calls if callee == name]
+            held[name] = bool(callers) and all(lex or held[cname] for cname, lex in callers)
+    out = []
+    for name, w in walkers.items():
+        for kind, lex, _line in w.accesses:
+            out.append((name, kind, bool(lex or held[name])))
+    return out
+
+
 def method_call_sites(cls, method):
     """[(caller, line, inside a self.lock region?)] for every call ``self.<method>()`` inside class ``cls``"""
     src = textwrap.dedent(inspect.getsource(cls))
@@ -153,6 +186,16 @@ def last_assign_line(func, attr):
     return best
 
 
+def first_lock_acquire_line(func):
+    """source line (in the file) of the first ``self.lock.acquire()`` statement of ``func`` (None if there is none)"""
+    lines, start = inspect.getsourcelines(func)
+    tree = ast.parse(textwrap.dedent("".join(lines))).body[0]
+    for st in ast.walk(tree):
+        if _is_call(st, "lock", "acquire"):
+            return start + st.lineno - 1
+    return None
+
+
 def gate_lines(channel_cls):
     """line numbers (in channel.py) of the first statement after the flag check in _send_eof / _close_internal:
     the point between 'flag read' and 'flag write' where the statement-level scheduler may preempt"""
@@ -169,7 +212,7 @@ def gate_lines(channel_cls):
     return out
 
 
-def lean_tables(sites, notifies):
+def lean_tables(sites, notifies, accesses=None):
     def b(x):
         return "true" if x else "false"
     out = ["/- GENERATED from the AST of paramiko/channel.py (class Channel) by pv/lib_chanlock.py — do not edit. -/",
@@ -194,5 +237,11 @@ def lean_tables(sites, notifies):
             "def notifies : List Notify := ["]
     out.append(",\n".join('  ⟨"%s", %s, %s⟩' % (n["caller"], b(n["kind"] == "notify_all"), b(n["eff"]))
                           for n in notifies))
-    out += ["]", "", "end PV.Generated.ChanLock", ""]
+    out += ["]", ""]
+    if accesses is not None:
+        out += ["/-- every mention of self.out_window_size: (method, is a write, effectively under self.lock) -/",
+                "def windowAccesses : List (String × Bool × Bool) := ["]
+        out.append(",\n".join('  ("%s", %s, %s)' % (f, b(k == "write"), b(l)) for f, k, l in accesses))
+        out += ["]", ""]
+    out += ["end PV.Generated.ChanLock", ""]
     return "\n".join(out)
